@@ -38,6 +38,20 @@ def dictionary_obligations(rep):
         and [m.__self__.pattern for m, _ in lx2._SQL_REGEX] == [m.__self__.pattern for m, _ in lx._SQL_REGEX]
     common.structural(rep, 'C14/Lexer.default_initialization/post-state independent of the pre-state (two-run)',
                       'sqlparse.lexer.Lexer.default_initialization', same, {})
+    # ... and it is the DOCUMENTED configuration again, also for a lexer created after that history (no list object is
+    # shared between the lexer and a module-level table that add_keywords() would then modify)
+    lx3 = lexer.Lexer()
+    lx3.default_initialization()
+    have2 = [next((n for n in want if getattr(keywords, n, None) is d), '?') for d in lx2._keywords]
+    have3 = [next((n for n in want if getattr(keywords, n, None) is d), '?') for d in lx3._keywords]
+    o = common.structural(rep, 'C14/Lexer.default_initialization/after add_keywords() + default_initialization() the documented '
+                          'dictionaries are registered again, for this and for any later lexer',
+                          'sqlparse.lexer.Lexer.default_initialization', have2 == want and have3 == want,
+                          {'after_history': have2, 'fresh_lexer_afterwards': have3})
+    if not (have2 == want and have3 == want):
+        o.witness = {'input': "Lexer().default_initialization(); add_keywords({'ZZTOP': Keyword}); default_initialization()",
+                     'failure': 'the custom dictionary is still registered: %r' % (have2 if have2 != want else have3),
+                     'reproduced': True}
 
 
 def run(rep):
